@@ -112,7 +112,9 @@ const children = 48
 func runChild(i int) scen.RaceResult {
 	exe, _ := os.Executable()
 	cmd := exec.Command(exe, "child", fmt.Sprint(i), fmt.Sprint(children))
-	cmd.Env = append(os.Environ(), "GORACE=halt_on_error=0 history_size=3", "GOMAXPROCS=4")
+	// the number of processors is part of the environment too (round 7, C16-A-r7: lock stripes sized
+	// by GOMAXPROCS that are only correct when it divides 64): the children run under 4, 3, 6, 5, 2, 7
+	cmd.Env = append(os.Environ(), "GORACE=halt_on_error=0 history_size=3", "GOMAXPROCS="+[]string{"4", "3", "6", "5", "2", "7"}[i%6])
 	var out bytes.Buffer
 	cmd.Stdout, cmd.Stderr = &out, &out
 	err := cmd.Run()
